@@ -183,7 +183,8 @@ class AnonymousTarget:
     :ivar str group:
         The group to which the target is assigned.
     :ivar str working_dir:
-        Working directory of this target.
+        Working directory of this target. If not given, the target gets the
+        working directory of the workflow it is added to.
     :ivar str spec:
         The specification of the target.
     :ivar set protect:
@@ -195,7 +196,7 @@ class AnonymousTarget:
     outputs: list = attrs.field()
     options: dict = attrs.field()
     group: str = attrs.field(default=None)
-    working_dir: str = attrs.field(default=".")
+    working_dir: str = attrs.field(default=None)
     protect: set = attrs.field(factory=set, converter=set)
     spec: str = attrs.field(default="")
 
